@@ -95,11 +95,12 @@ def decRecs (stride : Nat) : Nat → Bytes → Except DecErr (List AcStatusData 
     pure (a :: rs, rest)
 
 /-- `AcStatusDecoder.decode(buffer, header)` -/
-def decode (buffer : Bytes) (_nonRepeat repeatLen repeatCount : Nat) : Except DecErr (Msg × Bytes) :=
+def decode (buffer : Bytes) (nonRepeat repeatLen repeatCount : Nat) : Except DecErr (Msg × Bytes) :=
   if repeatCount = 0 ∧ repeatLen = 0 then .ok (.request, buffer)
   else if repeatLen < recSize then .error .decodeError
   else do
-    let (acs, rest) ← decRecs repeatLen repeatCount buffer
+    -- `buffer = buffer[header.non_repeat_length:]`: the announced non-repeating data is skipped
+    let (acs, rest) ← decRecs repeatLen repeatCount (buffer.drop nonRepeat)
     pure (.status acs, rest)
 
 /-! ### canonical text -/
